@@ -71,6 +71,11 @@ Bodies09_graph_t == { [f \in 1..3 |-> IF f = 1 THEN WithOut(b[1]) ELSE b[f]] : b
 (* same name in two directories: a path resolved against the wrong base finds the wrong file *)
 Bodies09_twin == { [f \in 1..3 |-> IF f = 1 THEN WithOut(b1) ELSE << >>] :
                      b1 \in SeqsFrom(ImpA({2, 3}, {1, 2}, Positions), 1, 2) }
+(* file names that begin with the letters of the standard library's directory: only the path *)
+(* component `std` is special (ast/rewrite.rs), a sibling stdb.ucg is an ordinary relative path *)
+LayStd2 == { [dir |-> << 0, 0 >>, nm |-> << "a", "stdb" >>], [dir |-> << 1, 1 >>, nm |-> << "stda", "stdb" >>] }
+Bodies09_std == { [f \in 1..2 |-> IF f = 1 THEN WithOut(<< s >>) ELSE << >>] :
+                    s \in ImpA({2}, {0, 1}, Positions) \cup IncA({2}, {0}, {"top"}) }
 (* four files: the entry <= 2 imports, the others <= 1 *)
 G09x4 == ImpA({1, 2, 3, 4}, {1}, {"top", "nested"})
 Bodies09_graph4 == { [f \in 1..4 |-> IF f = 1 THEN WithOut(b1) ELSE b[f]] :
